@@ -66,8 +66,13 @@ func jpegPayload(s JSeg, rng *rand.Rand, noFF bool, embed []byte) []byte {
 	case "xmpext":
 		put(0, []byte(xmpExtPrefix))
 	case "ff":
-		for i := 0; i < len(p); i += 1 + rng.Intn(3) {
-			p[i] = 0xFF
+		for i := range p {
+			if rng.Intn(2) == 0 {
+				p[i] = 0xFF
+			}
+		}
+		if len(p) > 0 {
+			p[rng.Intn(len(p))] = 0xFF
 		}
 	case "nested":
 		// a complete little JPEG inside the payload: SOI, APP1 Exif, DQT, EOI
